@@ -125,6 +125,8 @@ func (s *Server[StateT]) serveConn(conn net.Conn) {
 
 		oclog.DebugContext(ctx, "Received opcode")
 
+		verifAfterCommandRead()
+
 		if err := s.handleCommand(opCode, ctx); err != nil {
 			oclog.ErrorContext(ctx, "Command handler failed")
 			return
